@@ -84,6 +84,10 @@ let xfn_case fn_ op_ neg_ lit_ (words : string list) : string =
      | None -> "err:case")
   | ["op"; "neg"; v] ->
     (match parse_value v with Some a -> show_res (neg_ a) | None -> "err:case")
+  | ["op"; ("neg2" | "neg3") as k; v] ->
+    (* `--v` / `---v`: unary minus applied to the result of a unary minus (each application converts to a number) *)
+    let rec app n a = if n = 0 then ROk a else (match neg_ a with ROk b -> app (n - 1) b | r -> r) in
+    (match parse_value v with Some a -> show_res (app (if k = "neg2" then 2 else 3) a) | None -> "err:case")
   | ["op"; o; v1; v2] ->
     (match binop_of o, parse_value v1, parse_value v2 with
      | Some o, Some a, Some b -> show_res (op_ o a b)
